@@ -51,6 +51,14 @@ pub fn stmt_src(s: &str) -> String {
       format!("{}{}<{}> := {}", if p[1] == "1" { "~" } else { "" }, p[2], ann, name)
     }
     "D" => format!("{}{} := {}", if p[1] == "1" { "~" } else { "" }, p[2], expr_src(p[3])),
+    // a function with a statement body over one input: it copies its input (`r`), or first writes to it by
+    // op-assignment (`w`), assignment (`s`) or indexed assignment (`i`); and a call of it with a variable
+    "G" => {
+      let kind = if p[3] == "s" { "f64" } else { "[f64]" };
+      let body = match p[2] { "r" => "z := a + 0", "w" => "a += 1; z := a + 0", "s" => "a = 9; z := a + 0", _ => "a[1] = 0; z := a + 0" };
+      format!("{}(a<{}>) = z<{}> := {}.", p[1], kind, kind, body)
+    }
+    "C" => format!("{} := {}({})", p[1], p[2], p[3]),
     "A" => format!("{} = {}", p[1], expr_src(p[2])),
     "I" => { let ix: Vec<&str> = p[2].split(',').collect(); if ix.len() == 1 { format!("{}[{}] = {}", p[1], ix[0], p[3]) } else { format!("{}[[{}]] = {}", p[1], ix.join(" "), p[3]) } }
     "P" => format!("{} += {}", p[1], expr_src(p[2])),
@@ -166,6 +174,21 @@ pub fn generate(seed: u64, thorough: bool, sink: &mut Sink) -> Vec<String> {
             _ => gen_value_expr(rng) } } };
       let muts: Vec<(&str, bool, u64, usize)> = st.iter().filter(|x| x.1).cloned().collect();
       let kind = rng.below(16);
+      // a call of a function with a statement body (defined just before its first use): the input is passed a
+      // variable believed to hold a number or a matrix; `r` copies it into a fresh name, the other bodies try to
+      // write to their input and must be refused, leaving everything as it was
+      let callable: Vec<(&str, bool, u64, usize)> = st.iter().filter(|x| x.2 <= 3).cloned().collect();
+      if !callable.is_empty() && rng.chance(1, 9) {
+        let x = *rng.pick(&callable);
+        let k = if x.2 == 0 { "s" } else { "m" };
+        let mode = *rng.pick(if k == "m" { &["r", "w", "s", "i", "r"][..] } else { &["r", "w", "s", "r"][..] });
+        let fname = format!("f{}{}", mode, k);
+        if !stmts.iter().any(|p: &String| p.starts_with(&format!("G:{}:", fname))) { stmts.push(format!("G:{}:{}:{}", fname, mode, k)); sink.hit("stmt:G"); }
+        let y = if valid && !fresh.is_empty() { *rng.pick(&fresh) } else { any_name };
+        if mode == "r" && !st.iter().any(|z| z.0 == y) { st.push((y, false, x.2, x.3)); }
+        stmts.push(format!("C:{}:{}:{}:{}:{}", y, fname, x.0, mode, k)); sink.hit(&format!("stmt:C:{}", mode));
+        continue;
+      }
       let s = if kind <= 3 || st.is_empty() {
         // definition: a fresh name when valid, mutable two times in three
         let nm = if valid && !fresh.is_empty() { *rng.pick(&fresh) } else { any_name };
@@ -270,6 +293,11 @@ pub fn generate(seed: u64, thorough: bool, sink: &mut Sink) -> Vec<String> {
     cases.push(format!("session\tD:0:a:m2x2/1,2,3,4;;D:1:b:K2x2/a;;I:b:2:{};;P:b:n1;;D:0:c:K2x2/b", v));
     cases.push(format!("session\tD:1:a:m3x1/1,2,3;;D:1:b:K3x1/a;;Q:m:a:n2;;Q:s:b:n{};;I:a:3:0", v));
     cases.push(format!("session\tD:1:a:n{};;D:0:b:K0/a;;A:a:n9;;P:a:n1", v));
+    // functions that read or try to write their input
+    cases.push(format!("session\tD:0:a:n{};;G:frs:r:s;;C:b:frs:a:r:s;;G:fws:w:s;;C:c:fws:a:w:s;;D:0:d:ca", v));
+    cases.push(format!("session\tD:1:a:n{};;G:fss:s:s;;C:b:fss:a:s:s;;A:a:n3;;G:frs:r:s;;C:c:frs:a:r:s;;A:a:n4", v));
+    cases.push(format!("session\tD:1:a:m1x3/1,2,{};;G:fim:i:m;;C:b:fim:a:i:m;;G:frm:r:m;;C:c:frm:a:r:m;;I:a:1:0;;D:0:d:cc", v));
+    cases.push(format!("session\tD:0:a:m2x2/1,2,3,{};;G:fwm:w:m;;C:b:fwm:a:w:m;;G:fsm:s:m;;C:c:fsm:a:s:m;;D:0:d:ca", v));
     cases.push(format!("session\tD:0:a:n{};;D:1:b:K0/a;;A:b:n9;;Q:m:b:n2", v));
     sink.hit("pattern:sharing");
   }
